@@ -593,6 +593,7 @@ class GLRParser(Parser):
         error = self.errors[-1]
         debug = self.debug
         self._active_heads = {}
+        resume_position = None
         for head in self._last_shifted_heads:
             if debug:
                 input_str = head.input_str
@@ -615,7 +616,15 @@ class GLRParser(Parser):
                 successful = self.error_recovery(head, error, self.default_error_recovery)
 
             if successful:
-                error.location.end_position = head.position
+                # Heads may resume at different positions. The error spans
+                # the input up to the first position where parsing resumes,
+                # thus later errors can't start inside of it.
+                if resume_position is None or head.position < resume_position:
+                    resume_position = head.position
+                    # Heads behind the error position may resume before it.
+                    error.location.end_position = max(
+                        error.location.start_position, head.position
+                    )
                 if debug:
                     a_print(
                         "New position is ",
